@@ -51,22 +51,39 @@ def Result.isRaised {ρ : Type} : Result ρ → Bool
 /-- `sql_query.replace('`', '')` -/
 def stripBackticks (s : String) : String := String.ofList (s.toList.filter (· != '`'))
 
-/-- the text returned by the fallback branch: `str(ast_query)`, back-ticks removed when
-`self.dialect.name == 'postgresql'` -/
-def fallbackText (dialectName : String) (s : String) : String :=
-  if dialectName == "postgresql" then stripBackticks s else s
+/-- the repaired variant (fixes/C17_7.diff, `strip_backticks`): a scanner that drops back-tick IDENTIFIER quotes and
+copies `'…'` literals (with `\\x` escapes) verbatim.  State: inside a literal / inside a back-tick identifier /
+the previous character of the literal was a backslash. -/
+def stripOutsideAux : (inStr inId esc : Bool) → List Char → List Char
+  | _, _, _, [] => []
+  | true, inId, true, c :: rest => c :: stripOutsideAux true inId false rest
+  | true, inId, false, c :: rest =>
+    if c == '\\' then c :: stripOutsideAux true inId true rest
+    else if c == '\'' then c :: stripOutsideAux false inId false rest
+    else c :: stripOutsideAux true inId false rest
+  | false, inId, _, c :: rest =>
+    if c == '`' then stripOutsideAux false (!inId) false rest
+    else if c == '\'' && !inId then c :: stripOutsideAux true inId false rest
+    else c :: stripOutsideAux false inId false rest
+
+def stripOutside (s : String) : String := String.ofList (stripOutsideAux false false false s.toList)
+
+/-- the text returned by the fallback branch: `str(ast_query)`; when `self.dialect.name == 'postgresql'` the back-ticks are
+removed — all of them (`keepLiteral = false`, the code today) or only those outside string literals (repaired) -/
+def fallbackText (keepLiteral : Bool) (dialectName : String) (s : String) : String :=
+  if dialectName == "postgresql" then (if keepLiteral then stripOutside s else stripBackticks s) else s
 
 /-- `SqlalchemyRender.get_exec_params` (and `get_string`, which only projects the first component):
 `inner` is the behaviour of `get_query` followed by `render_func`, `printer` that of `str(ast_query)`. -/
 def getExecParams {ρ : Type} (inner : Outcome ρ) (printer : Outcome String) (withFallback : Bool)
-    (dialectName : String) : Result ρ :=
+    (dialectName : String) (keepLiteral : Bool := false) : Result ρ :=
   match inner with
   | .ret r => .rendering r
   | .raise e =>
     if e.caught then
       if !withFallback then .raised e
       else match printer with
-        | .ret s => .fallback (fallbackText dialectName s)
+        | .ret s => .fallback (fallbackText keepLiteral dialectName s)
         | .raise e' => .raised e'
     else .raised e
 
@@ -80,6 +97,14 @@ structure Tables where
   /-- probed behaviour of `getattr(list, m)(column)` / `getattr(list, m)(list)`: "attr" | "type" | "ok" -/
   listOps : List (String × String × String)
   textHas : List String
+  /-- probed: `to_expression(Tuple)` is a Python list (today) rather than `sa.tuple_` (fixes/C17_1.diff) -/
+  tupleIsList : Bool := true
+  /-- probed: the class of `RenderError` as the wrapper sees it (`exception` today, `sa` with fixes/C17_3.diff) -/
+  dupExc : Exc := .exception
+
+/-- the probed class name of `RenderError` ("exception" | "sa" | "notImpl") -/
+def excOfProbe (s : String) : Exc :=
+  if s == "sa" then .sa else if s == "notImpl" then .notImpl else .exception
 
 def upper (s : String) : String := String.ofList (s.toList.map Char.toUpper)
 def lower (s : String) : String := String.ofList (s.toList.map Char.toLower)
@@ -133,8 +158,8 @@ inductive Tag
   | ident (nparts : Nat) (first : String) (al : Al)
   /-- kids: grp targets, grp ctes, from | nil, where | nil, grp group_by, having | nil, grp order_by fields -/
   | select (mode : Mode) (al : Al)
-  /-- Union / Intersect / Except; kids: left, right -/
-  | union (al : Al)
+  /-- Union (`isUnion`) / Intersect / Except; kids: left, right -/
+  | union (isUnion : Bool) (al : Al)
   /-- kids: the args, or only `from_arg` when `hasFrom` -/
   | func (distinct hasFrom : Bool) (al : Al)
   | binop (op : String) (al : Al)
@@ -201,16 +226,16 @@ inductive Kind | col | colClause | list | text
 
 def sqlFnNames : List String := ["CURRENT_DATE", "CURRENT_TIME", "CURRENT_TIMESTAMP", "CURRENT_USER"]
 
-def kindOf : Tag → Kind
-  | .tuple => .list
+def kindOf (tb : Tables) : Tag → Kind
+  | .tuple => if tb.tupleIsList then .list else .col
   | .star => .text
   | .ident n first none => if n == 1 && sqlFnNames.contains (upper first) then .col else .colClause
   | .param _ | .variable | .latest | .last => .colClause
   | _ => .col
 
-def kindAt (kids : List T) (i : Nat) : Kind :=
+def kindAt (tb : Tables) (kids : List T) (i : Nat) : Kind :=
   match kids[i]? with
-  | some k => kindOf k.tag
+  | some k => kindOf tb k.tag
   | none => .col
 
 /-- calling attribute `m` of the left operand built for a node of kind `k` (right operand of kind `r`) -/
@@ -276,11 +301,11 @@ def pre (tb : Tables) (c : Ctx) (tag : Tag) (kids : List T) : Option Exc :=
   | .skip => none
   | .stmt =>
     match tag with
-    | .select _ _ | .union _ => none
+    | .select _ _ | .union _ _ => none
     | .insert tbl cols _ _ =>
       orElse (tableName tbl) (match cols with
         | none => some .notImpl
-        | some cs => if firstDup [] cs then some .exception else none)
+        | some cs => if firstDup [] cs then some tb.dupExc else none)
     | .update tbl hasFromSelect => if hasFromSelect then some .notImpl else tableName tbl
     | .delete tbl => tableName tbl
     | .createTable tbl cols =>
@@ -291,7 +316,7 @@ def pre (tb : Tables) (c : Ctx) (tag : Tag) (kids : List T) : Option Exc :=
     | _ => some .notImpl
   | .sel =>
     match tag with
-    | .select _ _ | .union _ => none
+    | .select _ _ | .union _ _ => none
     | _ => some .attr
   | .expr =>
     match tag with
@@ -302,13 +327,13 @@ def pre (tb : Tables) (c : Ctx) (tag : Tag) (kids : List T) : Option Exc :=
   | .table | .joinL =>
     match tag with
     | .ident n _ _ => tableName (.ident n)
-    | .select _ _ | .union _ => none
+    | .select _ _ | .union _ _ => none
     | .join _ _ => if c == .joinL then none else some .notImpl
     | _ => some .notImpl
   | .from_ =>
     match tag with
     | .join _ _ => if spineBadL kids then some .notImpl else none
-    | .union al => getAlias al
+    | .union isUnion al => if isUnion then getAlias al else some .notImpl   -- only `ast.Union` is dispatched
     | .select _ _ => none
     | .ident n _ _ => tableName (.ident n)
     | .nativeQuery al => (match al with | some 0 => some .index | _ => none)
@@ -333,7 +358,7 @@ def post (tb : Tables) (c : Ctx) (tag : Tag) (kids : List T) : Option Exc :=
   | .table | .joinL | .from_ =>
     match tag with
     | .select mode al => orElse (modeRaise mode) (getAlias al)
-    | .union al => if c == .from_ then none else getAlias al
+    | .union _ al => if c == .from_ then none else getAlias al
     | .ident _ _ al => getAlias al
     | .join implicit jt => if c == .table then none else joinTypeRaise implicit jt
     | _ => none
@@ -349,15 +374,15 @@ def post (tb : Tables) (c : Ctx) (tag : Tag) (kids : List T) : Option Exc :=
       orElse (if distinct && !hasFrom && kids.isEmpty then some .index else none) (getAlias al)
     | .binop op al =>
       let o := lower op
-      orElse (if (o == "in" || o == "not in") && kindAt kids 1 == .colClause then some .notImpl else none)
+      orElse (if (o == "in" || o == "not in") && kindAt tb kids 1 == .colClause then some .notImpl else none)
         (orElse (match tb.methods.lookup o with
-          | some m => callMethod tb (kindAt kids 0) (kindAt kids 1) m
-          | none => if tb.functions.contains o then none else callMethod tb (kindAt kids 0) (kindAt kids 1) "op")
+          | some m => callMethod tb (kindAt tb kids 0) (kindAt tb kids 1) m
+          | none => if tb.functions.contains o then none else callMethod tb (kindAt tb kids 0) (kindAt tb kids 1) "op")
           (getAlias al))
     | .unop op al =>
       (match tb.opmap.lookup (upper op) with
        | none => some .notImpl
-       | some m => orElse (callMethod tb (kindAt kids 0) .col m) (getAlias al))
+       | some m => orElse (callMethod tb (kindAt tb kids 0) .col m) (getAlias al))
     | .cast ty al => orElse (getType tb ty) (getAlias al)
     | _ => none
 
@@ -366,7 +391,7 @@ def kidCtx (w : Bool) (c : Ctx) (tag : Tag) (i : Nat) : Ctx :=
   match tag with
   | .grp => c
   | .select _ _ => if i == 1 then .cte else if i == 2 then .from_ else .expr
-  | .union _ | .exists_ _ | .cte _ _ => .sel
+  | .union _ _ | .exists_ _ | .cte _ _ => .sel
   | .join implicit _ => if i == 0 then .joinL else if i == 1 then .table else if implicit then .skip else .expr
   | .insert _ _ plain hasValues => if hasValues then (if plain && w then .skip else .expr) else .sel
   | _ => .expr
@@ -406,6 +431,28 @@ def clean (tb : Tables) (w : Bool) (c : Ctx) : T → Bool
 def cleanL (tb : Tables) (w : Bool) (c : Ctx) (tag : Tag) (i : Nat) : List T → Bool
   | [] => true
   | k :: ks => clean tb w (kidCtx w c tag i) k && cleanL tb w c tag (i + 1) ks
+end
+
+/-! ## shape invariants of parser output (not about the renderer; checked on every parsed tree by the harness) -/
+
+/-- local shape conditions: a Star is never the receiver of an operator, `f(DISTINCT)` has an argument, a NativeQuery
+alias has a part, `prepare_select` is only handed Select / Union nodes -/
+def shapedNode (tb : Tables) (c : Ctx) (tag : Tag) (kids : List T) : Bool :=
+  match c, tag with
+  | .expr, .binop _ _ => kindAt tb kids 0 != .text
+  | .expr, .unop _ _ => kindAt tb kids 0 != .text
+  | .expr, .func distinct hasFrom _ => !(distinct && !hasFrom && kids.isEmpty)
+  | .from_, .nativeQuery al => al != some 0
+  | .sel, .select _ _ | .sel, .union _ _ | .sel, .grp | .sel, .nil => true
+  | .sel, _ => false
+  | _, _ => true
+
+mutual
+def shaped (tb : Tables) (w : Bool) (c : Ctx) : T → Bool
+  | .mk tag kids => if c = .skip then true else shapedNode tb c tag kids && shapedL tb w c tag 0 kids
+def shapedL (tb : Tables) (w : Bool) (c : Ctx) (tag : Tag) (i : Nat) : List T → Bool
+  | [] => true
+  | k :: ks => shaped tb w (kidCtx w c tag i) k && shapedL tb w c tag (i + 1) ks
 end
 
 /-! ## `prepare_create_table` and the caller's columns -/
